@@ -128,7 +128,7 @@ func runMem(c Case, tr *Tracer) {
 				forceSub = lastSub
 			}
 		}
-		op := rr.Intn(15)
+		op := rr.Intn(16)
 		if forceOp >= 0 {
 			op, forceOp = forceOp, -1
 		} else if r := rr.Intn(8); r == 0 {
@@ -265,6 +265,35 @@ func runMem(c Case, tr *Tracer) {
 			lr.read = func() string { b, _ := hw.Bytes(); return string(b) }
 			add(lr)
 			emit(Ev{"ev": "Codec", "r": id, "fn": "packet.Writer", "same": lr.snap == string(own)}, "Codec")
+		case 15: // a held result goes through a short-lived writer of the caller (prefix a frame, copy it on): the writer is given back
+			var held []*liveResult
+			for _, lr := range live {
+				if len(lr.owned) > 0 {
+					held = append(held, lr)
+				}
+			}
+			if len(held) == 0 {
+				continue
+			}
+			src := held[rr.Intn(len(held))]
+			k := 1 + rr.Intn(len(src.owned))
+			sw := packet.NewPacketWriter()
+			sw.WriteBytes(src.owned[:k])
+			if rr.Intn(2) == 0 {
+				sw.WriteUint8(0x5A)
+			}
+			cp, _ := sw.Bytes()
+			want := string(src.owned[:k])
+			if len(cp) == k+1 {
+				want += "\x5a"
+			}
+			sw.Release()
+			id := nextID
+			nextID++
+			lr := &liveResult{id: id, kind: "codec", tn: "packet.Writer", owned: cp}
+			lr.read = func() string { return string(lr.owned) }
+			add(lr)
+			emit(Ev{"ev": "Codec", "r": id, "fn": "packet.Writer.relay", "same": string(cp) == want}, "Codec")
 		case 13: // a decode that fails half-way: the error it returns is a value too, and the input is reused afterwards
 			tn := typeNames[rr.Intn(len(typeNames))]
 			img, err := build(tn, defaultAssign(rr, tn, true)).IEncode()
@@ -468,14 +497,25 @@ func runMem(c Case, tr *Tracer) {
 				add(lr)
 				emit(Ev{"ev": "Split", "r": id}, "Split")
 				keep := string(append([]byte{}, txt...)) // a copy in memory of its own
-				for _, p := range parts {
+				// every part is the caller's, spare capacity included: writing all over one part leaves the others alone
+				shared := false
+				before := make([]string, len(parts))
+				for i, p := range parts {
+					before[i] = string(p)
+				}
+				for i, p := range parts {
 					full := p[:cap(p)]
-					for i := range full {
-						full[i] = 0xDD
+					for k := range full {
+						full[k] = byte(0xD0 + i%16)
+					}
+					for j := i + 1; j < len(parts); j++ {
+						if string(parts[j]) != before[j] {
+							shared = true
+						}
 					}
 				}
 				lr.snap = lr.read()
-				e := Ev{"ev": "ScribbleResult", "r": id}
+				e := Ev{"ev": "ScribbleResult", "r": id, "shared": shared}
 				if txt != keep {
 					// the parts handed out were the memory of the caller's own text
 					e["same"] = false
